@@ -103,6 +103,34 @@ func (c *perIPConn) Close() error {
 	return err
 }
 
+// closeConn closes the underlying connection without releasing the wrapper.
+//
+// It is meant for goroutines that do not own the connection (for instance
+// Server.Shutdown closing idle connections): the goroutine serving the
+// connection still uses the wrapper and releases it with Close once its
+// pending Read fails.
+func (c *perIPConn) closeConn() error {
+	c.lock.Lock()
+	cc := c.Conn
+	c.lock.Unlock()
+
+	if cc == nil {
+		return nil
+	}
+	return cc.Close()
+}
+
+func (c *perIPTLSConn) closeConn() error {
+	c.lock.Lock()
+	cc := c.Conn
+	c.lock.Unlock()
+
+	if cc == nil {
+		return nil
+	}
+	return cc.Close()
+}
+
 func (c *perIPTLSConn) Close() error {
 	c.lock.Lock()
 	cc := c.Conn
